@@ -374,6 +374,27 @@ def part_atomic(payload):
         part.nt(("atomic", name))
         for key, det in roundtrip(u, part, name):
             core.classify(known, part, key, det)
+        # the same text handed over as UTF-8 bytes (what an HDF5 attribute returns) denotes the same unit
+        for text in {name, str(u), repr(u)}:
+            if text == "(dimensionless)":
+                continue
+            part.ev()
+            try:
+                vb = Unit(text.encode("utf-8"))
+                vnp = Unit(np.bytes_(text.encode("utf-8")))
+            except Exception as e:
+                core.classify(known, part, f"C20:bytes-input:{'non-ascii' if not text.isascii() else 'ascii'}:{type(e).__name__}", {"text": text, "error": str(e)[:120]})
+                continue
+            if not (same(vb, u, 1e-12) and same(vnp, u, 1e-12)):
+                core.classify(known, part, f"C20:bytes-input-denotes-other-unit:{'non-ascii' if not text.isascii() else 'ascii'}", {"text": text, "unit": facts(u), "from_bytes": facts(vb)})
+        # large but legal exponents: the scale may saturate, the constructor may refuse with UnitParseError -- nothing else escapes
+        if sum(map(ord, name)) % 5 == 0:
+            tout = []
+            for e_ in (14, 42, 120, 300, -14, -42, -120, -300):
+                totality(f"{name}**{e_}", part, tout, "large-exponent")
+                totality(f"1/{name}**{abs(e_)}", part, tout, "large-exponent")
+            for key, det in tout:
+                core.classify(known, part, key + ":large-exponent", det)
         if float(u.base_offset) != 0.0:
             # units with a zero point reached through arithmetic that leaves them what they are: factors of the bare / named
             # dimensionless unit on either side, power one, a number times an array in that unit
